@@ -235,6 +235,14 @@ func components(s Source, noise bool) (encoded string, view []string) {
 
 func dateField(s Source, yLo, yHi int) (encoded []byte, view string, isBCD bool) {
 	view = date(s, yLo, yHi)
+	// unknown day, or unknown month and day, are written as 00 (ICAO 9303-10 / 9303-3: "unknown
+	// date elements"): still a well-formed 8-digit date field, but not a calendar date
+	switch s.Intn(12) {
+	case 0:
+		view = view[:6] + "00"
+	case 1:
+		view = view[:4] + "0000"
+	}
 	if chance(s, 1, 3) {
 		return bcd(view), view, true
 	}
